@@ -35,7 +35,7 @@ def configs(tier, seed):
         variant = {"multislater": "ref:1"}.get(kind, "")
         for (nchol, k) in ([(1, 1), (2, 1), (1, 2), (2, 2), (1, 3)] if (thorough or i == 0) else [(2, 1), (1, 2)]):
             for rd in (["trial", "zero", "arbitrary"] if (thorough or i == 0) else [["arbitrary", "trial", "zero"][i % 3]]):
-                for nexp in ([4, 6, 10] if (thorough or (i == 0 and nchol == 2 and k == 1)) else [6]):
+                for nexp in ([4, 6, 10, 14] if (thorough or (i == 0 and nchol == 2 and k == 1)) else ([14] if (i == 1 and k == 2) else [6])):
                     out.append(dict(kind=kind, n=n, na=na, nb=nb, variant=variant, nchol=nchol, k=k, rdm1=rd, nexp=nexp,
                                     ene0=[0.0, -0.7][(i + k) % 2], seed=seed, tier=tier))
     out.sort(key=lambda c: -(c["nchol"] * c["k"]))
@@ -67,7 +67,9 @@ def job(cfg):
     H = sec.hamiltonian(S["h0"], S["h1"], S["chol"])
     mvec, hmod, const = probmc.mf_quantities(S["h0"], S["h1"], S["chol"], S["rdm1"], 0.0)
     for dt in LADDER:
-        prop = propagation.propagator_unrestricted(dt=dt, n_walkers=M, n_exp_terms=nexp)
+        # n_batch alternates with the configuration: a batch count > 1 must change nothing
+        nbatch = 2 if (M % 2 == 0 and (cfg["nchol"] + cfg["k"]) % 2 == 1) else 1
+        prop = propagation.propagator_unrestricted(dt=dt, n_walkers=M, n_exp_terms=nexp, n_batch=nbatch)
         hd = {"h0": S["h0"], "h1": jnp.asarray(S["h1"]), "chol": jnp.asarray(S["chol"].reshape(nchol, n * n)), "ene0": ene0}
         hd = ham.build_measurement_intermediates(hd, S["trial"], S["wd"])
         hd = ham.build_propagation_intermediates(hd, prop, S["trial"], S["wd"])
@@ -183,7 +185,7 @@ def job_sampler(cfg):
 
 def run(ctx):
     ctx.rule = ("configurations = trial kind x size (both spins present) x n_chol x k consecutive steps x rdm1 {trial, zero, arbitrary} x "
-                "ene0 x n_exp_terms {4,6,10} x dt ladder; inside each: EVERY history of tensor Gauss-Hermite nodes over all k*n_chol "
+                "ene0 x n_exp_terms {4,6,10,14} x n_batch {1,2} x dt ladder; inside each: EVERY history of tensor Gauss-Hermite nodes over all k*n_chol "
                 "fields is one walker of one population pushed through k real propagate_free calls; state = (configuration, dt, step, "
                 "history); plus the free-projection sampler over every virtual-RNG stream (3 letters on 4 positions)")
     ctx.assume("quadrature/round-off floor 2e-9; the second-order ratio is required in the small-dt tail and only for n_exp_terms >= 6")
